@@ -151,6 +151,9 @@ func forwardRequest(client *http.Client, hostProxy http.Handler, request *utils.
 		log.Printf("Request %s: %s %s %v\n", request.RequestID, request.Contents.Method, request.Contents.Host, request.Contents.ContentLength)
 	}
 	if *forwardUserID {
+		// The backend must only ever see the identity asserted by the proxy,
+		// never a value for this header supplied by the end client itself.
+		httpRequest.Header.Del(utils.HeaderUserID)
 		httpRequest.Header.Add(utils.HeaderUserID, request.User)
 	}
 	if *stripCredentials {
